@@ -1641,12 +1641,14 @@ void process_header_to_links(mmd_engine * e, token * h) {
 
 	// The underline of a Setext header is not part of its title (see label_from_header)
 	size_t full_len = h->len;
+	bool setext = false;
 
 	if (!manual && h->child && h->child->tail) {
 		switch (h->child->tail->type) {
 			case MARKER_SETEXT_1:
 			case MARKER_SETEXT_2:
 				h->len = h->child->tail->start - h->start;
+				setext = true;
 				break;
 
 			default:
@@ -1668,6 +1670,12 @@ void process_header_to_links(mmd_engine * e, token * h) {
 	d_string_append(url, label);
 
 	link * l = link_new(e->dstr->str, h, url->str, NULL, NULL, LINK_AUTO);
+
+	if (l && setext) {
+		// A Setext header has no leading marker to skip -- the title is the whole span
+		free(l->clean_text);
+		l->clean_text = clean_string_from_range(e->dstr->str, h->start, h->len, true);
+	}
 
 	header->len = full_len;
 
